@@ -41,7 +41,7 @@ def gen_value(rnd, transportable):
         if k < 0.3:
             return rnd.choice([0, 1, -7, 42, 10**20])
         if k < 0.5:
-            return rnd.choice([0.5, -2.25, 1e300, 3.0])
+            return rnd.choice([0.5, -2.25, 1e300, 3.0, float("inf"), -float("inf"), -0.0, 5e-324])
         if k < 0.6:
             return rnd.choice([True, False])
         if k < 0.9:
